@@ -23,7 +23,7 @@ from .explore import sequential_decide
 from .pool_scenarios import SCENARIOS, world_h1
 from .simnet import FakeSSLContext, SimBackend, SimNet, WouldHang
 
-SEQ_SCENARIOS = ["h1-max1-AAB", "h1-max1-close", "h1-max1-abandon", "h1-max1-http10", "h1-max2-ABA-keep1", "h1-max2-ABC-keep0", "h1-tls-max1-AAB", "h1-max1-early", "h1-origins-port", "h1-retries-max1-AA"]
+SEQ_SCENARIOS = ["h2-max1-AA", "h2-max1-AAB", "h1-max1-upgrade", "fwd-max1-AA", "h1-max1-AAB", "h1-max1-close", "h1-max1-abandon", "h1-max1-http10", "h1-max2-ABA-keep1", "h1-max2-ABC-keep0", "h1-tls-max1-AAB", "h1-max1-early", "h1-origins-port", "h1-retries-max1-AA"]
 
 
 def digest(b):
@@ -350,6 +350,101 @@ def script_async(pool_kwargs, script, fault=None):
     return log + op_log(net)
 
 
+def mock_backend_scripts(quick):
+    """(family, script): 'body' = two sequential GETs whose response bodies arrive in the given segments;
+    'upgrade' = a 101 response followed by reads of the handed-over stream with the given max_bytes."""
+    out = []
+    R = 65536
+    sizes = [[R], [R, 13], [R - 1, 14], [R + 1, 12], [R, R, 1], [5, R, 5], [1]]
+    for i, segs in enumerate(sizes):
+        out.append(("body", {"id": f"body-{i}", "segs": segs}))
+    for n in (1, 3, 7):
+        for tail in ([n], [n, 2], [n - 1 or 1, n], [n + 1, n], [n, n, n]):
+            out.append(("upgrade", {"id": f"upgrade-{n}-{'-'.join(map(str, tail))}", "max_bytes": n, "segs": tail, "reads": len(tail) + 3}))
+    return out
+
+
+def _mock_buffers(fam, script):
+    if fam == "body":
+        total = sum(script["segs"])
+        body = (bytes(range(256)) * (total // 256 + 1))[:total]
+        segs, pos = [], 0
+        for n in script["segs"]:
+            segs.append(body[pos : pos + n])
+            pos += n
+        head = b"HTTP/1.1 200 OK\r\nContent-Length: %d\r\n\r\n" % total
+        one = [head] + segs
+        return one + one
+    tail = []
+    k = 0
+    for n in script["segs"]:
+        tail.append(bytes((k + j) % 251 for j in range(n)))
+        k += n
+    return [b"HTTP/1.1 101 Switching Protocols\r\nConnection: upgrade\r\nUpgrade: verif\r\n\r\n"] + tail
+
+
+def mock_sync(fam, script):
+    log = []
+    try:
+        with httpcore.ConnectionPool(network_backend=httpcore.MockBackend(_mock_buffers(fam, script)), max_connections=1) as pool:
+            if fam == "body":
+                for k in range(2):
+                    try:
+                        r = pool.request("GET", "http://mock.test/%d" % k)
+                        log.append(_step_log("response", "r", "ok", r.content, r.status))
+                    except Exception as e:  # noqa
+                        log.append(_step_log("response", "r", type(e).__name__))
+                    log.append(_step_log("pool", "p", "|".join(norm_info(c.info()) for c in pool.connections)))
+            else:
+                with pool.stream("GET", "http://mock.test/up", headers=[("Connection", "upgrade"), ("Upgrade", "verif")]) as r:
+                    log.append(_step_log("response", "r", "ok", b"", r.status))
+                    ns = r.extensions["network_stream"]
+                    for _ in range(script["reads"]):
+                        try:
+                            d = ns.read(max_bytes=script["max_bytes"])
+                            log.append(_step_log("nsread", "r", "ok", d, len(d)))
+                        except Exception as e:  # noqa
+                            log.append(_step_log("nsread", "r", type(e).__name__))
+                log.append(_step_log("pool", "p", "|".join(norm_info(c.info()) for c in pool.connections)))
+    except Exception as e:  # noqa
+        log.append(_step_log("outer", "x", type(e).__name__))
+    return log
+
+
+def mock_async(fam, script):
+    import asyncio
+
+    log = []
+
+    async def main():
+        try:
+            async with httpcore.AsyncConnectionPool(network_backend=httpcore.AsyncMockBackend(_mock_buffers(fam, script)), max_connections=1) as pool:
+                if fam == "body":
+                    for k in range(2):
+                        try:
+                            r = await pool.request("GET", "http://mock.test/%d" % k)
+                            log.append(_step_log("response", "r", "ok", r.content, r.status))
+                        except Exception as e:  # noqa
+                            log.append(_step_log("response", "r", type(e).__name__))
+                        log.append(_step_log("pool", "p", "|".join(norm_info(c.info()) for c in pool.connections)))
+                else:
+                    async with pool.stream("GET", "http://mock.test/up", headers=[("Connection", "upgrade"), ("Upgrade", "verif")]) as r:
+                        log.append(_step_log("response", "r", "ok", b"", r.status))
+                        ns = r.extensions["network_stream"]
+                        for _ in range(script["reads"]):
+                            try:
+                                d = await ns.read(max_bytes=script["max_bytes"])
+                                log.append(_step_log("nsread", "r", "ok", d, len(d)))
+                            except Exception as e:  # noqa
+                                log.append(_step_log("nsread", "r", type(e).__name__))
+                    log.append(_step_log("pool", "p", "|".join(norm_info(c.info()) for c in pool.connections)))
+        except Exception as e:  # noqa
+            log.append(_step_log("outer", "x", type(e).__name__))
+
+    asyncio.run(main())
+    return log
+
+
 def unasync_diff():
     """Fresh translation of httpcore/_async with the repository's own rules, compared with
     httpcore/_sync over the full length of every file.  -> list of differences."""
@@ -474,6 +569,14 @@ def run(prop, tier):
             return [{"k": "tx", "sid": -1, "t": -1, "n": o.get("written", 0), "d": digest(repr((o.get("method"), o.get("target"), o.get("headers"), o.get("body"), o.get("endOnHeaders"), o.get("ended"))).encode()), "r": o["kind"]} for o in obs]
 
         traces.append({"a": flat2(oa), "s": flat2(os_), "what": ["reqwire", s]})
+    # 4. the library's OWN mock back ends (httpcore.MockBackend / AsyncMockBackend are public API and
+    #    hand-written twins, not translated): scripted segments whose lengths sit around the size of the
+    #    read that consumes them (the 64 KiB connection reads; max_bytes of a read on an upgraded stream)
+    nmock = 0
+    for fam, script in mock_backend_scripts(quick):
+        traces.append({"a": mock_async(fam, script), "s": mock_sync(fam, script), "what": ["mock-backend", fam, script["id"]]})
+        nmock += 1
+    chk.coverage["mock_backend_scripts"] = nmock
     verdicts, stats = validate(traces)
     rejected = [(t, v) for t, v in zip(traces, verdicts) if v[0] != "ACCEPT"]
     accepted = [t for t, v in zip(traces, verdicts) if v[0] == "ACCEPT"]
